@@ -212,6 +212,19 @@ where
         bit_read: &mut R,
         mut n: u64,
     ) -> Result<(), CopyError<R::Error, Self::Error>> {
+        if WW::Word::BITS > 64 {
+            // read_bits returns at most 64 bits at a time, so for wider words
+            // we cannot fill the buffer or a word with a single read
+            while n > 0 {
+                let to_read = core::cmp::min(n, 64) as usize;
+                let read = bit_read.read_bits(to_read).map_err(CopyError::ReadError)?;
+                self.write_bits(read, to_read)
+                    .map_err(CopyError::WriteError)?;
+                n -= to_read as u64;
+            }
+            return Ok(());
+        }
+
         if n < self.space_left_in_buffer as u64 {
             self.buffer = (self.buffer << n)
                 | bit_read
@@ -382,6 +395,19 @@ where
         bit_read: &mut R,
         mut n: u64,
     ) -> Result<(), CopyError<R::Error, Self::Error>> {
+        if WW::Word::BITS > 64 {
+            // read_bits returns at most 64 bits at a time, so for wider words
+            // we cannot fill the buffer or a word with a single read
+            while n > 0 {
+                let to_read = core::cmp::min(n, 64) as usize;
+                let read = bit_read.read_bits(to_read).map_err(CopyError::ReadError)?;
+                self.write_bits(read, to_read)
+                    .map_err(CopyError::WriteError)?;
+                n -= to_read as u64;
+            }
+            return Ok(());
+        }
+
         if n < self.space_left_in_buffer as u64 {
             self.buffer = (self.buffer >> n)
                 | (bit_read
